@@ -136,7 +136,7 @@ Lemma step_consistent : forall g s e, is_import e = false -> consistent s ->
 Proof.
   intros g s e Hi Hc.
   assert (Hsame : consistent s /\ db_le (com s) (com s)) by (split; [exact Hc|apply db_le_refl]).
-  destruct e as [rg|v pl|t a r kids pl|t a|j full|roots]; cbn [step_event]; try discriminate.
+  destruct e as [rg|v pl|t a r kids pl|t a|j full|roots|t a|j full]; cbn [step_event]; try discriminate.
   - split; [|apply db_le_refl]. destruct Hc as [H1 H2]. split; [exact H1|]. unfold vis. simpl. rewrite db_app_db0_l. exact H1.
   - destruct (negb (alive s)); [exact Hsame|].
     pose proof (consistent_value (c_retries g) v s pl Hc) as Hh.
@@ -160,6 +160,10 @@ Proof.
     + destruct Hv as (G1 & [K1 _] & _). split; [apply consistent_die; exact G1|exact K1].
     + destruct Hv as (G1 & [K1 _] & _). auto.
     + destruct Hv.
+  - destruct (negb (alive s)); [exact Hsame|].
+    destruct (get_call_node _ _ _ _ _); exact Hsame.
+  - destruct (negb (alive s)); [exact Hsame|].
+    destruct (nth_error (jobs s) j) as [[c Sj]|]; [|exact Hsame]. destruct (memt c (nodes (vis s))); exact Hsame.
   - destruct (negb (alive s)); [exact Hsame|].
     destruct (get_call_node _ _ _ _ _); exact Hsame.
   - destruct (negb (alive s)); [exact Hsame|].
